@@ -5,10 +5,11 @@
 EXTENDS Lang, Json
 Nums == {"n0", "n1", "n2"}
 S(src, r, a, b) == <<"app">> \o src \o <<r, a, b>>
-Srcs == { <<"val">>, <<"strab">>, <<"cat", "val", "n5">> }
+\* (the last source is a concatenation of three keyed pairs: its keys sit at the positions ranges start and end at)
+Srcs == { <<"val">>, <<"strab">>, <<"cat", "val", "n5">>, <<"cat", "cat", "pair", "syma", "n1", "pair", "symb", "n2", "pair", "symc", "n5">> }
 Slices == { S(src, r, a, b) : src \in Srcs, r \in {"rng", "rnge"}, a \in Nums, b \in Nums }
 Shapes == { <<"leni">> \o s : s \in Slices }
-          \cup { <<"acc">> \o s \o <<i>> : s \in Slices, i \in Nums \cup {"syma"} }
+          \cup { <<"acc">> \o s \o <<i>> : s \in Slices, i \in Nums \cup {"syma", "symb", "symc"} }
           \cup { <<"cast">> \o s \o <<"val">> : s \in Slices }
           \cup { <<"leni", "cat">> \o s \o <<"n5">> : s \in Slices }
           \cup { <<"acc", "cat">> \o s \o <<"n5", i>> : s \in Slices, i \in Nums \cup {"syma"} }
